@@ -278,3 +278,196 @@ Proof.
         apply children_of_lists. rewrite C2. apply in_flat_map. exists o. rewrite Em2.
         split; [exact Hch|]. apply (lists_children_of _ _ _ WL1). rewrite LF1. exact Ho.
 Qed.
+
+(* ------------------------------------------------------------------ *)
+(* 3. the cell -> row lookup in terms of the taxonomy                   *)
+Lemma c2c_keys (leaf : level) : map fst (cell_to_cluster leaf) = concat (map snd leaf).
+Proof.
+  unfold cell_to_cluster. induction leaf as [|[n cs] t IH]; [reflexivity|].
+  cbn [flat_map]. rewrite map_app. cbn [map concat snd]. f_equal; [|exact IH].
+  rewrite map_map. cbn [fst]. apply map_id.
+Qed.
+
+Lemma in_c2c (leaf : level) c cl : In (c, cl) (cell_to_cluster leaf) <-> lists leaf cl c.
+Proof.
+  unfold cell_to_cluster, lists. rewrite in_flat_map. split.
+  - intros ([n cs] & Hin & Hm). cbn [fst snd] in Hm. apply in_map_iff in Hm. destruct Hm as (c' & E & Hc').
+    inversion E; subst. exists cs. split; assumption.
+  - intros (cs & Hin & Hc). exists (cl, cs). split; [exact Hin|]. cbn [fst snd]. apply in_map_iff.
+    exists c. split; [reflexivity | exact Hc].
+Qed.
+
+Lemma c2c_get (leaf : level) c cl : NoDup (concat (map snd leaf)) ->
+  (dict_get c (cell_to_cluster leaf) = Some cl <-> lists leaf cl c).
+Proof.
+  intros ND. assert (ND' : NoDup (map fst (cell_to_cluster leaf))) by (rewrite c2c_keys; exact ND).
+  rewrite (dict_get_nodup c _ ND'). rewrite <- in_c2c. split; [apply zassoc_in | apply zassoc_nodup_in; exact ND'].
+Qed.
+
+Definition lookup_of (leaf : level) (lookup : list (Z * Z)) : Prop :=
+  forall cell,
+    dict_get cell lookup =
+    match dict_get cell (cell_to_cluster leaf) with
+    | Some cl => option_map Z.of_nat (zassoc cl (cluster_to_row (map fst leaf)))
+    | None => None
+    end.
+
+Lemma lookup_row (leaf : level) lookup : lookup_of leaf lookup -> NoDup (concat (map snd leaf)) ->
+  forall c z, dict_get c lookup = Some z <->
+    exists cl r, lists leaf cl c /\ zassoc cl (cluster_to_row (map fst leaf)) = Some r /\ z = Z.of_nat r.
+Proof.
+  intros Hs ND c z. rewrite Hs. destruct (dict_get c (cell_to_cluster leaf)) as [cl|] eqn:E.
+  - split.
+    + intros H. destruct (zassoc cl (cluster_to_row (map fst leaf))) as [r|] eqn:Er; cbn in H; [|discriminate H].
+      inversion H; subst. exists cl, r. split; [apply (c2c_get leaf c cl ND); exact E | split; [exact Er | reflexivity]].
+    + intros (cl' & r & Hl & Hr & ->). apply (c2c_get leaf c cl' ND) in Hl. rewrite E in Hl. inversion Hl; subst cl'.
+      rewrite Hr. reflexivity.
+  - split; [discriminate|]. intros (cl & r & Hl & _). apply (c2c_get leaf c cl ND) in Hl. congruence.
+Qed.
+
+(* the ancestor used by truncate = the ancestor of the taxonomy model *)
+Lemma sanc_eq (t : tree) lvl o : lvl <> (length t - 1)%nat ->
+  Stats.ancestor_at t lvl o = Tree.ancestor_at t (length t - 1) o lvl.
+Proof.
+  intros H. unfold Stats.ancestor_at, Tree.ancestor_at.
+  replace (Nat.eqb lvl (length t - 1)) with false by (symmetry; apply Nat.eqb_neq; exact H). reflexivity.
+Qed.
+
+(* ------------------------------------------------------------------ *)
+(* 4. c09_truncation                                                    *)
+Theorem truncation_full : forall D ng t files rows p new_hier c2r data nt nc T,
+  validate t = true -> wf t -> files_wf ng files -> (1 <= rows)%nat -> (1 <= p)%nat ->
+  precompute D (leaf_level t) files rows p = Ok (c2r, data) ->
+  truncate ng t new_hier c2r data = Ok (nt, nc, T) ->
+  let n := length t in
+  let kept := filter (fun l => nat_mem l new_hier) (seq 0 n) in
+  let lvl := last kept 0%nat in
+  (* (a) the taxonomy written *)
+  (exists lis t1, drops_ok n lis /\ Tree.drop_levels t lis = TOk t1 /\
+      ((lvl = (n - 1)%nat /\ nt = t1) \/ (lvl <> (n - 1)%nat /\ drop_leaf_level t1 = TOk nt))) /\
+  validate nt = true /\ wf nt /\ length nt = length kept /\ (1 <= length kept)%nat /\
+  (forall k, (k < length kept)%nat -> nodes (nth k nt []) = nodes (nth (nth k kept 0%nat) t [])) /\
+  (forall j k x, (k <= j < length kept)%nat ->
+     Tree.ancestor_at nt j x k = Tree.ancestor_at t (nth j kept 0%nat) x (nth k kept 0%nat)) /\
+  (forall L c, lists (leaf_level nt) L c <->
+     exists o, lists (leaf_level t) o c /\ Tree.ancestor_at t (n - 1) o lvl = Some L) /\
+  (* (b) the table written *)
+  Permutation (map fst nc) (nodes (leaf_level nt)) /\ map snd nc = seq 0 (length T) /\
+  forall rows' p', (1 <= rows')%nat -> (1 <= p')%nat ->
+    exists c2r' data', precompute D (leaf_level nt) files rows' p' = Ok (c2r', data') /\
+      length data' = length T /\
+      forall L, In L (nodes (leaf_level nt)) ->
+        exists r r' s, dict_get L nc = Some r /\ dict_get L c2r' = Some r' /\
+                       nth_error T r = Some s /\ nth_error data' r' = Some s.
+Proof.
+  intros D ng t files rows p new_hier c2r data nt nc T V W Hfw Hrows Hp Hpre Htr n kept lvl.
+  set (leaf := (leaf_level t : list (Z * list Z))). set (cells := all_cells files).
+  assert (NDl : NoDup (map fst leaf)) by (apply (wf_leaf t W)).
+  assert (NDr : NoDup (concat (map snd leaf))) by (destruct (validate_sound t V) as (_ & _ & R & _); exact R).
+  destruct (table_is_direct D leaf files rows p ng NDl Hrows Hp Hfw) as (lookup & Hspec & Epre).
+  fold leaf in Hpre. rewrite Hpre in Epre. fold cells in Epre.
+  destruct (existsb (named lookup) cells) eqn:Enamed; [|discriminate Epre].
+  inversion Epre as [[Ec2r Edata]]. clear Epre.
+  change (map (fun r => stats_of_rows D ng (members lookup (Z.of_nat r) cells)) (seq 0 (length leaf)))
+    with (direct D (length leaf) ng lookup cells) in Edata.
+  destruct (truncate_inv _ _ _ _ _ _ _ _ Htr) as (hier' & Hdrop & _).
+  destruct (trunc_tree t new_hier nt hier' V W Hdrop) as (TA & V2 & W2 & L2 & K1 & Hlvl & LFA & N2 & A2 & R2).
+  fold n in TA, L2, K1, Hlvl, LFA, N2, A2, R2. fold kept in TA, L2, K1, Hlvl, LFA, N2, A2, R2.
+  fold lvl in TA, Hlvl, LFA, R2.
+  split; [exact TA|]. split; [exact V2|]. split; [exact W2|]. split; [exact L2|]. split; [exact K1|].
+  split; [exact N2|]. split; [exact A2|]. split; [exact R2|].
+  pose proof (rows_by_name leaf NDl) as RB. cbv zeta in RB. unfold node in *. rewrite <- Ec2r in RB.
+  destruct RB as (RB1 & RB2 & RB3 & RB4 & _).
+  assert (N1 : NoDup (map fst c2r)) by (rewrite RB1; apply zsort_nodup; exact NDl).
+  assert (N2' : NoDup (map snd c2r)) by (rewrite RB2; apply seq_NoDup).
+  assert (Hc : cells_rect ng cells) by (apply all_cells_rect; exact Hfw).
+  set (leaf' := (leaf_level nt : list (Z * list Z))).
+  assert (NDl' : NoDup (map fst leaf')) by (apply (wf_leaf nt W2)).
+  assert (NDr' : NoDup (concat (map snd leaf'))) by (destruct (validate_sound nt V2) as (_ & _ & R & _); exact R).
+  rewrite Edata in Htr.
+  pose proof (truncation_collapse D (length leaf) ng lookup cells t new_hier c2r nt nc T Hc NDl N1 N2' NDl' Htr) as TC.
+  cbv zeta in TC. fold n kept lvl in TC.
+  destruct TC as [(El & Enc & ET) | (El & Enc & LT & Hrow)].
+  - (* leaf level kept: nothing changes *)
+    pose proof (LFA El) as LF. fold leaf' leaf in LF.
+    split; [rewrite Enc, RB1, LF; apply zsort_perm|].
+    split; [rewrite Enc, RB2, ET, direct_length, map_length; reflexivity|].
+    intros rows' p' Hr' Hp'. exists c2r, data. split.
+    + rewrite LF. rewrite <- Hpre.
+      apply (partition_independent D leaf files files rows' rows p' p ng); try assumption. apply Permutation_refl.
+    + split; [rewrite ET, Edata; reflexivity|]. intros L HL. rewrite LF in HL.
+      destruct (RB3 L HL) as (r & Hr & Hlt & _). rewrite map_length in Hlt.
+      exists r, r, (stats_of_rows D ng (members lookup (Z.of_nat r) cells)).
+      rewrite Enc. rewrite (dict_get_nodup L c2r N1). split; [exact Hr|]. split; [exact Hr|].
+      rewrite ET, Edata. split; apply direct_row; exact Hlt.
+  - (* a coarser leaf level *)
+    set (newl := nodes leaf') in *.
+    split; [rewrite Enc; rewrite map_fst_combine by (rewrite seq_length; reflexivity); apply Permutation_refl|].
+    split; [rewrite Enc, LT; apply map_snd_combine; rewrite seq_length; reflexivity|].
+    intros rows' p' Hrw' Hpw'.
+    destruct (table_is_direct D leaf' files rows' p' ng NDl' Hrw' Hpw' Hfw) as (lookup' & Hspec' & Epre').
+    fold cells in Epre'.
+    pose proof (rows_by_name leaf' NDl') as RB'. cbv zeta in RB'. destruct RB' as (RB1' & RB2' & RB3' & RB4' & _).
+    unfold node in *.
+    set (c2r' := cluster_to_row (map fst leaf')) in *.
+    assert (N1' : NoDup (map fst c2r')) by (rewrite RB1'; apply zsort_nodup; exact NDl').
+    assert (Hanc : forall o, Stats.ancestor_at t lvl o = Tree.ancestor_at t (n - 1) o lvl)
+      by (intros o; apply sanc_eq; exact El).
+    (* a cell of an old leaf is a cell of the new leaf above it *)
+    assert (Hup : forall c z, dict_get c lookup = Some z -> exists z', dict_get c lookup' = Some z').
+    { intros c z Hz. apply (lookup_row leaf lookup Hspec NDr) in Hz. destruct Hz as (cl & r & Hl & _ & _).
+      pose proof (lists_node _ _ _ Hl) as Hcl. unfold leaf in Hcl. rewrite leaf_level_nth in Hcl.
+      destruct (ancestor_at_exists t (n - 1) cl lvl V ltac:(unfold n; pose proof (validate_nonempty t V); lia) Hcl ltac:(lia))
+        as (L & HL).
+      assert (Hl' : lists leaf' L c) by (apply R2; exists cl; split; [exact Hl | exact HL]).
+      destruct (RB3' L (lists_node _ _ _ Hl')) as (r' & Hzr' & _).
+      exists (Z.of_nat r'). apply (lookup_row leaf' lookup' Hspec' NDr'). exists L, r'. auto. }
+    assert (Enamed' : existsb (named lookup') cells = true).
+    { apply existsb_exists in Enamed. destruct Enamed as (x & Hx & Hn). apply existsb_exists. exists x.
+      split; [exact Hx|]. unfold named in *. destruct (dict_get (fst x) lookup) as [z|] eqn:Ez; [|discriminate Hn].
+      destruct (Hup _ _ Ez) as (z' & Ez'). rewrite Ez'. reflexivity. }
+    rewrite Enamed' in Epre'.
+    change (map (fun r => stats_of_rows D ng (members lookup' (Z.of_nat r) cells)) (seq 0 (length leaf')))
+      with (direct D (length leaf') ng lookup' cells) in Epre'.
+    exists c2r', (direct D (length leaf') ng lookup' cells). split; [exact Epre'|].
+    split; [rewrite direct_length, LT; unfold newl, nodes; rewrite map_length; reflexivity|].
+    intros L HL.
+    destruct (c2r_generic newl NDl') as [G1 _]. destruct (G1 L HL) as (dst & Hdst & _).
+    assert (Hd : dict_get L nc = Some dst).
+    { rewrite Enc. rewrite dict_get_nodup; [exact Hdst|].
+      rewrite map_fst_combine by (rewrite seq_length; reflexivity). exact NDl'. }
+    destruct (Hrow L dst Hd) as (src & Hsrc & HT).
+    destruct (RB3' L HL) as (r' & Hr' & Hlt' & _). rewrite map_length in Hlt'.
+    exists dst, r', (stats_of_rows D ng (members lookup' (Z.of_nat r') cells)).
+    split; [exact Hd|]. split; [rewrite (dict_get_nodup L c2r' N1'); exact Hr'|].
+    split; [|apply direct_row; exact Hlt'].
+    rewrite HT. f_equal. f_equal. unfold members_of, members. f_equal. apply filter_ext. intros c.
+    apply bool_eq_iff. split.
+    + intros P1. destruct (dict_get (fst c) lookup) as [z|] eqn:Ez; [|discriminate P1].
+      apply zmem_in in P1. apply in_map_iff in P1. destruct P1 as (r & <- & Hr).
+      apply (lookup_row leaf lookup Hspec NDr) in Ez. destruct Ez as (cl & r0 & Hl & Hr0 & Er0).
+      apply Nat2Z.inj in Er0. subst r0.
+      assert (Hr0' : zassoc cl c2r = Some r) by (rewrite Ec2r; exact Hr0). clear Hr0. rename Hr0' into Hr0.
+      apply (opt_map_in _ _ _ Hsrc r) in Hr. destruct Hr as (o & Ho & Hor).
+      rewrite (dict_get_nodup o c2r N1) in Hor. pose proof (RB4 o cl r Hor Hr0) as ->.
+      apply filter_In in Ho. destruct Ho as [_ Ho]. unfold anc_is in Ho. rewrite Hanc in Ho.
+      destruct (Tree.ancestor_at t (n - 1) cl lvl) as [a|] eqn:Ea; [|discriminate Ho].
+      apply Z.eqb_eq in Ho. subst a.
+      assert (Hl' : lists leaf' L (fst c)) by (apply R2; exists cl; split; [exact Hl | exact Ea]).
+      assert (Ez' : dict_get (fst c) lookup' = Some (Z.of_nat r'))
+        by (apply (lookup_row leaf' lookup' Hspec' NDr'); exists L, r'; auto).
+      rewrite Ez'. apply Z.eqb_refl.
+    + intros P2. destruct (dict_get (fst c) lookup') as [z'|] eqn:Ez'; [|discriminate P2].
+      apply Z.eqb_eq in P2. subst z'.
+      apply (lookup_row leaf' lookup' Hspec' NDr') in Ez'. destruct Ez' as (L' & r'' & Hl' & Hr'' & Er'').
+      apply Nat2Z.inj in Er''. subst r''. pose proof (RB4' L' L r' Hr'' Hr') as ->.
+      apply R2 in Hl'. destruct Hl' as (o & Ho & Ea).
+      pose proof (lists_node _ _ _ Ho) as Hon.
+      destruct (RB3 o Hon) as (r & Hr & _).
+      assert (Ez : dict_get (fst c) lookup = Some (Z.of_nat r)).
+      { apply (lookup_row leaf lookup Hspec NDr). exists o, r.
+        split; [exact Ho | split; [rewrite Ec2r in Hr; exact Hr | reflexivity]]. }
+      rewrite Ez. apply zmem_in. apply in_map. apply (opt_map_in _ _ _ Hsrc r). exists o. split.
+      * apply filter_In. split; [exact Hon|]. unfold anc_is. rewrite Hanc, Ea. apply Z.eqb_refl.
+      * rewrite (dict_get_nodup o c2r N1). exact Hr.
+Qed.
